@@ -5,6 +5,30 @@
   and the expression trees of `Model/ViewExpr.lean`, which `harness/c14.py` runs against the real objects.
   The model is purely functional; that the real `subset` works on a *copy* of the outer selection vector
   (no aliasing) is what the harness re-reads after every operation.
+
+  CLAUSE MAP (property text → theorems). `WF s` holds for every constructed screen (`C14_built_screens_wf`), and every view reachable by
+  any finite composition of the operations has a selection of the parent's length (`C14_expr_sound`), so the length hypotheses of the
+  list-level theorems are discharged for real inputs by the `C14_expr_*` theorems.
+
+  1. "a subset or plate view reports, for every per-experiment attribute, exactly the parent's values at the selected rows in parent order"
+       → `C14_attr` (any list, any mask), `C14_attr_generic` (any attribute, any reachable view), `C14_attr_rows` (the nine attributes the
+         driver prints); plate views: `C14_plates_partition` (row i is in plate p iff its plate id is p; one plate per distinct id).
+  2. "subsetting a subset composes the selections" → `C14_compose`, `C14_compose_pointwise`, `C14_subset_spec`, reachable views: `C14_expr_sub`.
+     "without touching the outer view" → harness-only: views are immutable values in a functional model (`C14_subset_spec` returns a new
+         value); absence of aliasing between numpy selection vectors is re-read by the harness after every operation.
+  3. "combine and concat are set union" → `C14_union`, `C14_union_concat`, reachable views: `C14_expr_comb`, `C14_expr_cat`.
+  4. "invert is complement" → `C14_complement`, reachable views: `C14_expr_inv`.
+  5. "the observed/unobserved views split the screen by its mask" → `C14_split_by_mask`.
+  6. "materialising a view yields a screen with the same rows (names, doses, observations, mask, plate names) in the same order"
+       → `C14_to_screen_rows`, for every reachable view `C14_expr_to_screen`; independent of ids / stored mappings `C14_to_screen_ignores_pmap`.
+  7. "the unique-condition filter keeps exactly one experiment per distinct (sample, treatment ids) combination"
+       → `C14_unique_exactly_one`, `C14_unique_filter`, reachable views `C14_expr_uniq`; the function itself `C14_select_unique`,
+         its call site `C14_unique_filter_columns`.
+  8. "views of different parent screens refuse to combine" → `C14_foreign_refused`.
+  9. "all finite compositions of subset / combine / concat / invert / to_screen" → `C14_expr_sound`, `C14_denote_algebra`,
+         `C14_view_derived` (derived properties of reachable views).
+  harness-only: aliasing / in-place writes (item 2); numpy boolean indexing, np.where scatter and np.unique(axis=0, return_index) agreeing with
+         maskFilter / scatter / first occurrence (tie); `single_treatment_effects` values (float means; `C14_attr_generic` covers the row selection).
 -/
 import Batchie.Lemmas.ViewsSelect
 import Batchie.Lemmas.ScreenApi
@@ -372,6 +396,128 @@ theorem C14_view_derived (s : Screen) (w : WF s) (e : ViewExpr) (v : View) (h : 
       have := hall i hi
       rw [hbi] at this
       exact Option.some.inj this
+
+/-! ### the clauses, for every view reachable by a composition of operations (length hypotheses discharged) -/
+
+/-- every reachable view has one selection entry per row of every attribute array of the parent -/
+theorem C14_reachable_lengths (s : Screen) (w : WF s) (e : ViewExpr) (v : View) (h : eval s e = .ok v) :
+    v.sel.length = s.size ∧ v.sel.length = s.sids.length ∧ v.sel.length = s.tids.length ∧ v.sel.length = s.pids.length ∧
+    v.sel.length = s.tnames.length := by
+  obtain ⟨h1, _⟩ := eval_sound s w e v h
+  have hs : s.size = s.tnames.length := by rw [Screen.size, w.len_snames]
+  exact ⟨h1, by rw [h1, hs, w.len_sids], by rw [h1, hs, w.len_tids], by rw [h1, hs, w.len_pids], by rw [h1, hs]⟩
+
+/-- **combine of reachable views is their union** -/
+theorem C14_expr_comb (s : Screen) (w : WF s) (a b : ViewExpr) (v : View) (h : eval s (.comb a b) = .ok v) :
+    ∃ va vb, eval s a = .ok va ∧ eval s b = .ok vb ∧ va.parent = vb.parent ∧ v.parent = va.parent ∧
+      ∀ k : Nat, v.sel[k]? = some true ↔ (va.sel[k]? = some true ∨ vb.sel[k]? = some true) := by
+  simp only [eval] at h
+  obtain ⟨va, ha, h1⟩ := (except_bind_ok_iff _ _ _).mp h
+  obtain ⟨vb, hb, h2⟩ := (except_bind_ok_iff _ _ _).mp h1
+  obtain ⟨hla, _⟩ := eval_sound s w a va ha
+  obtain ⟨hlb, _⟩ := eval_sound s w b vb hb
+  obtain ⟨hp, rfl⟩ := (combine_ok_iff va vb v).mp h2
+  exact ⟨va, vb, ha, hb, hp, rfl, orSel_true_iff _ _ (by rw [hla, hlb])⟩
+
+/-- **invert of a reachable view is its complement within the parent's rows** -/
+theorem C14_expr_inv (s : Screen) (w : WF s) (e : ViewExpr) (v : View) (h : eval s (.inv e) = .ok v) :
+    ∃ v0, eval s e = .ok v0 ∧ v = v0.invert ∧ v.sel.length = s.size ∧
+      (∀ k : Nat, k < s.size → (v.sel[k]? = some true ↔ v0.sel[k]? = some false)) ∧ v.invert = v0 := by
+  simp only [eval] at h
+  obtain ⟨v0, h0, h1⟩ := (except_bind_ok_iff _ _ _).mp h
+  obtain ⟨hl, _⟩ := eval_sound s w e v0 h0
+  injection h1 with h1; subst h1
+  obtain ⟨_, c2, c3, c4, _, _⟩ := C14_complement (α := Bool) v0 v0.sel rfl
+  exact ⟨v0, h0, rfl, by rw [c2, hl], fun k hk => c3 k (by rw [hl]; exact hk), c4⟩
+
+/-- **nested subset of a reachable view composes the selections** -/
+theorem C14_expr_sub (s : Screen) (w : WF s) (e : ViewExpr) (inner : List Bool) (v : View) (h : eval s (.sub e inner) = .ok v) :
+    ∃ v0, eval s e = .ok v0 ∧ inner.length = v0.size ∧ v.sel.length = s.size ∧ v.size = inner.count true ∧
+      (∀ {α : Type} (xs : List α), maskFilter xs v.sel = maskFilter (maskFilter xs v0.sel) inner) ∧
+      (∀ k : Nat, v.sel[k]? = some true → v0.sel[k]? = some true) := by
+  simp only [eval] at h
+  obtain ⟨v0, h0, h1⟩ := (except_bind_ok_iff _ _ _).mp h
+  obtain ⟨hl, _⟩ := eval_sound s w e v0 h0
+  obtain ⟨hlen, rfl⟩ := (view_subset_ok_iff v0 inner v).mp h1
+  refine ⟨v0, h0, hlen, by simp only [length_scatter]; exact hl, count_scatter _ _ hlen, fun xs => maskFilter_scatter xs _ _ hlen,
+    scatter_le _ _ hlen⟩
+
+/-- **the unique filter of a reachable view keeps exactly one experiment per distinct (sample id, treatment ids) of that view** -/
+theorem C14_expr_uniq (s : Screen) (w : WF s) (e : ViewExpr) (v : View) (h : eval s (.uniq e) = .ok v) :
+    ∃ v0, eval s e = .ok v0 ∧ v.parent = v0.parent ∧
+      (maskFilter s.sids v.sel).zip (maskFilter s.tids v.sel) = (uniqKeys s v0.sel).eraseDups ∧
+      ((maskFilter s.sids v.sel).zip (maskFilter s.tids v.sel)).Nodup ∧
+      (∀ key, key ∈ (maskFilter s.sids v.sel).zip (maskFilter s.tids v.sel) ↔ key ∈ uniqKeys s v0.sel) ∧
+      (∀ k : Nat, v.sel[k]? = some true → v0.sel[k]? = some true) := by
+  simp only [eval] at h
+  obtain ⟨v0, h0, h1⟩ := (except_bind_ok_iff _ _ _).mp h
+  obtain ⟨_, hs, ht, _, _⟩ := C14_reachable_lengths s w e v0 h0
+  obtain ⟨w', hw, hp, _, hz, hsub⟩ := C14_unique_filter s v0 hs ht
+  rw [hw] at h1; injection h1 with h1; subst h1
+  refine ⟨v0, h0, hp, hz, ?_, ?_, hsub⟩
+  · rw [hz]; exact nodup_eraseDups _
+  · intro key; rw [hz]; exact List.mem_eraseDups
+
+/-- **concat of reachable views is the union of all of them** -/
+theorem C14_expr_cat (s : Screen) (w : WF s) (es : List ViewExpr) (v : View) (h : eval s (.cat es) = .ok v) :
+    ∃ v0 rest, evalList s es = .ok (v0 :: rest) ∧ v.parent = v0.parent ∧ v.sel.length = s.size ∧
+      ∀ k : Nat, v.sel[k]? = some true ↔ ∃ x ∈ v0 :: rest, x.sel[k]? = some true := by
+  simp only [eval] at h
+  obtain ⟨vs, hvs, h1⟩ := (except_bind_ok_iff _ _ _).mp h
+  have hall := evalList_sound s w es vs hvs
+  cases vs with
+  | nil => simp [View.concat] at h1
+  | cons v0 rest =>
+    have hlen : ∀ x ∈ v0 :: rest, x.sel.length = s.size := by
+      intro x hx
+      obtain ⟨e', _, hx'⟩ := hall.exists_of_mem_right x hx
+      exact hx'.1
+    have hpar : ∀ x ∈ rest, x.parent = v0.parent := by
+      cases rest with
+      | nil => intro x hx; cases hx
+      | cons x1 rest' =>
+        simp only [View.concat] at h1
+        split at h1
+        · cases h1
+        · rename_i hany
+          intro x hx
+          have hf : (x1 :: rest').any (fun y => y.parent != v0.parent) = false := by
+            cases hb : (x1 :: rest').any (fun y => y.parent != v0.parent)
+            · rfl
+            · exact absurd hb hany
+          have := List.any_eq_false.mp hf x hx
+          simpa using this
+    obtain ⟨w', hw, hp, hl, hk⟩ := C14_union_concat v0 rest s.size (hlen v0 (by simp)) hpar (fun x hx => hlen x (by simp [hx]))
+    rw [hw] at h1; injection h1 with h1; subst h1
+    refine ⟨v0, rest, hvs, hp, hl, fun k => ?_⟩
+    rw [hk k]
+    constructor
+    · rintro (h | ⟨x, hx, h⟩)
+      · exact ⟨v0, by simp, h⟩
+      · exact ⟨x, by simp [hx], h⟩
+    · rintro ⟨x, hx, h⟩
+      rcases List.mem_cons.mp hx with rfl | hx'
+      · exact Or.inl h
+      · exact Or.inr ⟨x, hx', h⟩
+
+/-- **every reachable view materialises**, to exactly its rows in order -/
+theorem C14_expr_to_screen (s : Screen) (w : WF s) (e : ViewExpr) (v : View) (h : eval s e = .ok v) :
+    ∃ t, s.viewToScreen v = .ok t ∧
+      t.tnames = maskFilter s.tnames v.sel ∧ t.tdoses = maskFilter s.tdoses v.sel ∧
+      t.snames = maskFilter s.snames v.sel ∧ t.pnames = maskFilter s.pnames v.sel ∧
+      t.obs = maskFilter s.obs v.sel ∧ t.mask = maskFilter s.mask v.sel ∧
+      t.ctrl = s.ctrl ∧ t.arity = s.arity ∧ t.size = v.size ∧ WF t :=
+  C14_to_screen_rows s w v (eval_sound s w e v h).1
+
+/-- **plate views partition the rows by plate id**: row `i` is in the view of plate `p` iff its plate id is `p`; `plates` lists one view per
+    distinct plate id, ascending; every row's plate id is listed -/
+theorem C14_plates_partition (s : Screen) (pid : Nat) :
+    (∀ (p : Int) (i : Nat) (hi : i < s.pids.length), (s.getPlate pid p).sel[i]? = some true ↔ s.pids[i] = p) ∧
+    (∀ p, (s.getPlate pid p).sel.length = s.pids.length ∧ (s.getPlate pid p).parent = pid) ∧
+    s.plates pid = s.uniquePlateIds.map (s.getPlate pid) ∧ s.uniquePlateIds.Pairwise (· < ·) ∧
+    (∀ p, p ∈ s.uniquePlateIds ↔ p ∈ s.pids) := by
+  refine ⟨fun p i hi => ?_, fun p => ⟨by simp [Screen.getPlate], rfl⟩, rfl, sortedUniqueInts_strict s.pids, fun p => mem_sortedUniqueInts s.pids p⟩
+  simp [Screen.getPlate, List.getElem?_eq_getElem hi]
 
 /-- the denotation is built from the set operations: complement, union, nested selection -/
 theorem C14_denote_algebra (s : Screen) :
